@@ -72,8 +72,8 @@ Proof.
   assert (inv_all (end_block s)) as Hi'.
   { split; [|split].
     - exact (step_idx s EndBlock I eq_refl eq_refl).
-    - exact (step_J s EndBlock I Hj eq_refl).
-    - exact (step_nn s EndBlock I N). }
+    - exact (step_J s EndBlock I Hj eq_refl eq_refl).
+    - exact (step_nn s EndBlock I N eq_refl). }
   assert (height (end_block s) = height s + 1) as Hg by (unfold end_block; reflexivity).
   unfold end_block in *.
   destruct (fetch (ur s) (due_keys (height s) (pidx s))) as [recs|] eqn:F.
